@@ -185,7 +185,7 @@ package eval
 //@   property C10 C09 C07
 
 // Members of the evaluator family: each is verified against the frame clause assuming the others' contracts.
-//@ funcs (*State).evalInternal, (*State).evalIfExpression, (*State).evalPostfixExpression, (*State).evalStatements, (*State).evalForExpression, (*State).evalForList, (*State).evalIdentifier, (*State).evalPrefixIncrDecr, (*State).evalAssignment, (*State).evalIndexAssigment, (*State).evalPipe, (*State).evalIndexExpression, (*State).evalMapLiteral, (*State).evalPrintLogError, (*State).evalDelete, (*State).deleteMapEntry, (*State).evalBuiltin, (*State).applyFunction, (*State).evalForSpecialForms
+//@ funcs (*State).evalInternal, (*State).evalIfExpression, (*State).evalPostfixExpression, (*State).evalStatements, (*State).evalForExpression, (*State).evalForList, (*State).evalIdentifier, (*State).evalPrefixIncrDecr, (*State).evalAssignment, (*State).evalPipe, (*State).evalIndexExpression, (*State).evalMapLiteral, (*State).evalPrintLogError, (*State).evalDelete, (*State).evalBuiltin, (*State).applyFunction, (*State).evalForSpecialForms
 //@   requires s != nil && s.env != nil
 //@   modifies heap
 //@   nosafety
@@ -196,6 +196,39 @@ package eval
 //@   ensures  regs:: regsame()
 //@   onpanic ensures regs:: regsame()
 //@   property C10
+
+// Index assignment and element deletion (C06): the container value that was bound before the statement - which other
+// bindings, arguments and container elements may still denote - keeps its elements.
+//@ func (*State).evalIndexAssigment
+//@   requires s != nil && s.env != nil
+//@   modifies heap
+//@   nosafety
+//@   maypanic *
+//@   ensures  frame:: frame(s)
+//@   ensures  regs:: regsame()
+//@   onpanic ensures regs:: regsame()
+//@   ensures  @C06 arrvalue:: memsame(object.Object)
+//@   ensures  @C06 mapvalue:: memsame(object.keyValuePair)
+//@   property C10 C06
+
+//@ func (*State).evalMapInfixExpression
+//@   requires s != nil && left != nil && right != nil
+//@   modifies heap
+//@   nosafety
+//@   maypanic *
+//@   ensures  @C06 noinplace:: memsame(object.keyValuePair) && memsame(object.Object)
+//@   property C06
+
+//@ func (*State).deleteMapEntry
+//@   requires s != nil && s.env != nil
+//@   modifies heap
+//@   nosafety
+//@   maypanic *
+//@   ensures  frame:: frame(s)
+//@   ensures  regs:: regsame()
+//@   onpanic ensures regs:: regsame()
+//@   ensures  @C06 mapvalue:: memsame(object.keyValuePair)
+//@   property C10 C06
 
 // quote evaluates unquote() calls through an ast.Modify callback that re-enters evalInternal: the callback's frame
 // cannot be carried through the assumed ast.Modify contract, so the member is assumed.
@@ -255,8 +288,10 @@ package eval
 //@   modifies heap
 //@   maypanic would exceed memory
 //@   loop 1 invariant cap(result) == n && n == len(leftVal) * rightVal && len(result) == rangeint_iter * len(leftVal) && 0 <= rangeint_iter && rangeint_iter < rightVal && len(leftVal) > 0
+//@   loop 1 invariant @C06 memsame(object.Object) && freshref(result)
 //@   ensures  frame:: frame(s)
-//@   property C09 C07
+//@   ensures  @C06 noinplace:: memsame(object.Object)
+//@   property C09 C07 C06
 
 //@ func (*State).Stack
 //@   pure
